@@ -543,6 +543,12 @@ def run_check(cls: type, tier: str, seed: int) -> int:
                                     found_input=False))
             discharged = 0
 
+    if any(b.kind == 'translator' for b in broken):
+        # the generated files are stale (the translator refused the current source): whatever compiled, compiled against the
+        # PREVIOUS code, so nothing counts as discharged for this tree
+        discharged = 0
+        chk.notes.append('translator failed closed: obligations were compiled against the previously generated files and are not counted')
+
     # 4. extracted models
     models_ok = True
     for name, xv in chk.models.items():
